@@ -27,8 +27,14 @@ const c18Key = "4c0883a69102937d6231471b5dbb6204fe5129617082792ae468d01a3f362318
 type lev struct {
 	K string `json:"k"` // start, cur, again, old, unknown, switch
 	N uint32 `json:"n,omitempty"`
-	W int    `json:"w,omitempty"` // 0 = wallet "0xw", 1 = empty wallet
+	W int    `json:"w,omitempty"` // index into c18Wallets (1 = empty wallet)
 }
+
+// wallet strings: the report must name the wallet exactly as it was given
+// (a mixed-case EIP-55 address, surrounding blanks, non-ASCII); an empty one
+// is refused. A blank-only wallet is left out: the statement does not say
+// whether that is "a wallet address".
+var c18Wallets = []string{"0xw", "", "0x52908400098527886E0F7030069857D2E4169EE7", " 0xw ", "0xDE709F2102306220921060314715629080E2fb77\t", "wallet-\u00fc"}
 
 func (e lev) String() string {
 	if e.K == "start" {
@@ -86,10 +92,7 @@ func runLatency(seq []lev, joined bool, ch vrt.Chooser, mapOrder bool) (out expl
 		switch e.K {
 		case "start":
 			rid = c.NextReqID()
-			wallet := "0xw"
-			if e.W == 1 {
-				wallet = ""
-			}
+			wallet := c18Wallets[e.W]
 			c.SendMsg(&hagallpb.SignedLatencyRequest{Type: hagallpb.MsgType_MSG_TYPE_SIGNED_LATENCY_REQUEST, Timestamp: w.NextTS(), RequestId: rid, IterationCount: e.N, WalletAddress: wallet})
 		case "switch":
 			x.join("a", "")
@@ -155,10 +158,10 @@ func runLatency(seq []lev, joined bool, ch vrt.Chooser, mapOrder bool) (out expl
 		inSession := len(x.J) > 0
 		switch e.K {
 		case "start":
-			okStart := inSession && e.N >= 3 && e.N <= 50 && e.W == 0
+			okStart := inSession && e.N >= 3 && e.N <= 50 && c18Wallets[e.W] != ""
 			if !okStart {
 				if len(pings) > 0 || len(finals) > 0 {
-					fail("start", "measurement-started-when-it-must-not", "start(n=%d, wallet=%v, joined=%v) started a measurement", e.N, e.W == 0, inSession)
+					fail("start", "measurement-started-when-it-must-not", "start(n=%d, wallet=%v, joined=%v) started a measurement", e.N, c18Wallets[e.W] != "", inSession)
 				}
 				if len(errs) != 1 || errs[0].RequestId != rid {
 					fail("answer", "start-refusal-answers", "refused start answered with %v", kinds)
@@ -168,7 +171,7 @@ func runLatency(seq []lev, joined bool, ch vrt.Chooser, mapOrder bool) (out expl
 						want = 401
 					}
 					if int32(errs[0].Code) != want && !(!inSession && errs[0].Code == 460) {
-						fail("answer", "start-refusal-code", "start(n=%d, wallet=%v, joined=%v) refused with code %d", e.N, e.W == 0, inSession, errs[0].Code)
+						fail("answer", "start-refusal-code", "start(n=%d, wallet=%v, joined=%v) refused with code %d", e.N, c18Wallets[e.W] != "", inSession, errs[0].Code)
 					}
 				}
 				continue
@@ -177,7 +180,7 @@ func runLatency(seq []lev, joined bool, ch vrt.Chooser, mapOrder bool) (out expl
 				fail("start", "start-not-answered-with-first-ping", "accepted start answered with %v", kinds)
 				continue
 			}
-			cur = &measurement{rid: rid, n: e.N, wallet: "0xw", uuid: x.J["a"].UUID, sentAt: map[uint32]int64{}, latency: map[uint32]float32{}}
+			cur = &measurement{rid: rid, n: e.N, wallet: c18Wallets[e.W], uuid: x.J["a"].UUID, sentAt: map[uint32]int64{}, latency: map[uint32]float32{}}
 			all = append(all, cur)
 			cur.issued = append(cur.issued, pings[0])
 			cur.sentAt[pings[0]] = now
@@ -357,7 +360,7 @@ func init() {
 		switch p.Mode {
 		case "counts":
 			for _, n := range []uint32{0, 1, 2, 3, 4, 5, 49, 50, 51, 60, math.MaxUint32} {
-				for wl := 0; wl < 2; wl++ {
+				for wl := range c18Wallets {
 					for _, joined := range []bool{true, false} {
 						seq := []lev{{K: "start", N: n, W: wl}}
 						for i := uint32(0); i < 52 && (n <= 60); i++ {
@@ -422,7 +425,7 @@ func init() {
 		jobs = append(jobs, check.Job{Kind: "c18", Name: "IN:latency-counts", Params: p1}, check.Job{Kind: "c18", Name: "S3:latency-straight-maporder", Params: p2})
 		return jobs
 	}, check.PropInfo{
-		Rule:        "client behaviours as event sequences (answer the current ping / answer the last answered id again / answer an older or abandoned id / answer an unknown id / start a new measurement / switch session) of length <= depth after a start with n in {3,4}, every sequence, on the real server under a virtual clock advanced by distinct steps before each event (the harness knows every round's latency exactly); iteration counts {0,1,2,3,4,5,49,50,51,60,MaxUint32} x wallets {set, empty} x joined / not joined; straight runs with every rotation of the iteration order of the map the statistics are computed from. Oracle: starts only when allowed, exactly n PING_REQUESTs, one report, public key recovered from the signature over Keccak-256(data) = server key, data names client / session uuid / wallet, ping id list = issued ids, statistics recomputed from the known latencies, illegitimate answers refused without advancing.",
+		Rule:        "client behaviours as event sequences (answer the current ping / answer the last answered id again / answer an older or abandoned id / answer an unknown id / start a new measurement / switch session) of length <= depth after a start with n in {3,4}, every sequence, on the real server under a virtual clock advanced by distinct steps before each event (the harness knows every round's latency exactly); iteration counts {0,1,2,3,4,5,49,50,51,60,MaxUint32} x wallets {plain, empty, mixed-case address, surrounded by blanks, trailing tab, non-ASCII} x joined / not joined; straight runs with every rotation of the iteration order of the map the statistics are computed from. Oracle: starts only when allowed, exactly n PING_REQUESTs, one report, public key recovered from the signature over Keccak-256(data) = server key, data names client / session uuid / wallet, ping id list = issued ids, statistics recomputed from the known latencies, illegitimate answers refused without advancing.",
 		Assumptions: []string{"the clock advances by at least 1 µs between events (ping-id collisions of a frozen clock are outside the alphabet)", "receiver/sender threads eager; one event at a time"},
 	})
 }
